@@ -4,7 +4,7 @@
    [fuel] = number of rounds, so every statement holds at whichever round the float
    implementation leaves the loop. *)
 From Coq Require Import QArith ZArith List Permutation.
-From V Require Import C12.Model C12.Lemmas.
+From V Require Import C12.Model C12.Lemmas C12.Termination.
 Import ListNotations.
 Open Scope Q_scope.
 
@@ -127,6 +127,61 @@ Theorem C12_exact_termination_refuted_200 :
                    is_out_of_fuel (loop 200 D rem qs 0) = true.
 Proof. exact exact_termination_refuted_200. Qed.
 Print Assumptions C12_exact_termination_refuted_200.
+
+(* TERMINATION IS FALSE IN EXACT ARITHMETIC, with the exit tests exactly as coded (IsEmpty with
+   the 0.1 threshold per dimension and pods ignored, DeepEqual(remaining, old), total weight 0):
+   on the cross-capped witness the loop runs out of fuel for EVERY fuel.  (The real plugin
+   leaves after 54 rounds on it: float absorption; see docs/notes/C12.md and law 107.) *)
+Theorem C12_exact_nontermination : forall fuel,
+  is_out_of_fuel (loop fuel 4 wit_rem wit_qs 0) = true.
+Proof. exact exact_nontermination. Qed.
+Print Assumptions C12_exact_nontermination.
+
+(* what is true about fuel: an exit, once taken, is stable under more fuel, and is taken
+   after at most [fuel] rounds *)
+Theorem C12_loop_done_stable : forall fuel D rem qs k qs' rem' n,
+  loop fuel D rem qs k = Done qs' rem' n ->
+  forall extra, loop (fuel + extra) D rem qs k = Done qs' rem' n.
+Proof. exact loop_done_stable. Qed.
+Print Assumptions C12_loop_done_stable.
+
+Theorem C12_loop_rounds_le_fuel : forall fuel D rem qs k qs' rem' n,
+  loop fuel D rem qs k = Done qs' rem' n -> (n <= k + fuel)%nat.
+Proof. exact loop_rounds_le_fuel. Qed.
+Print Assumptions C12_loop_rounds_le_fuel.
+
+(* the progress measure that is true: in every round every deserved value grows or stays and
+   every remaining value shrinks or stays (no amount is ever handed back), so over the whole
+   loop remaining stays within [0, start] -- but nothing bounds the number of rounds *)
+Theorem C12_round_monotone : forall D rem qs,
+  Forall (fun q => (0 < q_w q)%Z /\ wf_static q /\ Mq q) qs -> total_weight qs <> 0%Z -> vnonneg rem ->
+  Forall (fun q => (0 < q_w q)%Z /\ wf_static q /\ Mq q) (fst (round D rem qs))
+  /\ vnonneg (snd (round D rem qs))
+  /\ (forall q i, In q qs ->
+        val0 (cnth (q_des q) i) <= val0 (cnth (q_des (upd rem (total_weight qs) q)) i))
+  /\ (forall i, val0 (cnth (snd (round D rem qs)) i) <= val0 (cnth rem i)).
+Proof. exact round_monotone. Qed.
+Print Assumptions C12_round_monotone.
+
+Theorem C12_remaining_never_grows : forall fuel D rem0 qs k,
+  Forall (fun q => (0 < q_w q)%Z /\ wf_static q /\ Mq q) qs -> vnonneg rem0 ->
+  forall i, 0 <= val0 (cnth (out_rem (loop fuel D rem0 qs k)) i) <= val0 (cnth rem0 i).
+Proof. exact remaining_never_grows. Qed.
+Print Assumptions C12_remaining_never_grows.
+
+Theorem C12_progress_hypotheses_hold_initially : forall q,
+  wf_static q -> q_des q = vzero -> Mq q.
+Proof. exact Mq_init. Qed.
+Print Assumptions C12_progress_hypotheses_hold_initially.
+
+(* ORDER INDEPENDENCE, pointwise: run over any permutation qs' of qs, the loop returns
+   map (loopF .. qs) qs' -- every queue ends with the record loopF assigns to it, whatever
+   the iteration order; all inputs, all fuel *)
+Theorem C12_loop_pointwise : forall fuel D rem qs qs' k,
+  Permutation qs qs' ->
+  out_qs (loop fuel D rem qs' k) = map (loopF fuel D rem qs) qs'.
+Proof. exact loop_pointwise. Qed.
+Print Assumptions C12_loop_pointwise.
 
 (* non-vacuity: the witness queues satisfy the hypotheses of the bound theorems *)
 Example C12_hypotheses_satisfiable : Forall upper_ok wit_qs.
